@@ -100,9 +100,23 @@ Proof.
   rewrite E. f_equal. unfold a. destruct (us <? 0) eqn:Hs; lia.
 Qed.
 
+(* ------------------------------------------------------------------ geometry <-> WKT *)
+(* a polygon without exterior ring prints as POLYGON EMPTY: it must not have interior rings *)
+Definition geom_ok (g : geom) : Prop := match g with GeoPoly [] (_ :: _) => False | _ => True end.
+
+Lemma geom_roundtrip : forall g, geom_ok g -> from_wkt (geom_kind g) (geom_wkt g) = Some g.
+Proof.
+  intros g H. destruct g as [p | l | ext ints].
+  - reflexivity.
+  - destruct l; reflexivity.
+  - destruct ext as [|e ext].
+    + destruct ints; [reflexivity | contradiction].
+    + cbn. destruct ints; reflexivity.
+Qed.
+
 (* ------------------------------------------------------------------ the value tree *)
 Section Laws.
-  Variables D Dt Tm Dtm U Geo : Type.
+  Variables D Dt Tm Dtm U : Type.
   Variable dec_str : D -> list Z.
   Variable dec_parse : list Z -> option D.
   Variable uuid_str : U -> list Z.
@@ -113,10 +127,7 @@ Section Laws.
   Variable strptime_hm strptime_hms strptime_hmsf : list Z -> option Tm.
   Variable dtm_iso : Dtm -> list Z.
   Variable strptime_frac strptime_nofrac : list Z -> option Dtm.
-  Variable geo_kind : Geo -> geomkind.
-  Variable wkt_str : Geo -> list Z.
-  Variable from_wkt : geomkind -> list Z -> option Geo.
-  Variable geqb : gval D Dt Tm Dtm U Geo -> gval D Dt Tm Dtm U Geo -> bool.
+  Variable geqb : gval D Dt Tm Dtm U -> gval D Dt Tm Dtm U -> bool.
 
   (* the assumed laws of Python's own formatters and parsers *)
   Definition leaf_laws : Prop :=
@@ -125,39 +136,38 @@ Section Laws.
     (forall d, strptime_date (date_iso d) = Some d) /\
     (forall t, strptime_hm (time_fmt t) = None /\ strptime_hms (time_fmt t) = None /\ strptime_hmsf (time_fmt t) = Some t) /\
     (forall x, strptime_frac (dtm_iso x ++ [90]) = Some x \/
-               (strptime_frac (dtm_iso x ++ [90]) = None /\ strptime_nofrac (dtm_iso x ++ [90]) = Some x)) /\
-    (forall g, from_wkt (geo_kind g) (wkt_str g) = Some g).
+               (strptime_frac (dtm_iso x ++ [90]) = None /\ strptime_nofrac (dtm_iso x ++ [90]) = Some x)).
 
-  Notation gv := (gval D Dt Tm Dtm U Geo).
-  Notation ser23 := (serialize23 D Dt Tm Dtm U Geo dec_str uuid_str date_iso time_fmt dtm_iso geo_kind wkt_str).
-  Notation ser1 := (serialize1 D Dt Tm Dtm U Geo dec_str uuid_str date_iso time_fmt dtm_iso geo_kind wkt_str).
-  Notation deser23 := (deserialize23 D Dt Tm Dtm U Geo dec_parse uuid_parse strptime_date strptime_hm strptime_hms strptime_hmsf
-                                     strptime_frac strptime_nofrac from_wkt geqb).
-  Notation deser1 := (deserialize1 D Dt Tm Dtm U Geo dec_parse uuid_parse strptime_date strptime_hm strptime_hms strptime_hmsf
-                                   strptime_frac strptime_nofrac from_wkt).
-  Notation sof := (serializer_of D Dt Tm Dtm U Geo geo_kind).
-  Notation nrm := (norm D Dt Tm Dtm U Geo).
-  Notation sbuild := (set_build D Dt Tm Dtm U Geo geqb).
-  Notation dbuild := (dict_build D Dt Tm Dtm U Geo geqb).
+  Notation gv := (gval D Dt Tm Dtm U).
+  Notation ser23 := (serialize23 D Dt Tm Dtm U dec_str uuid_str date_iso time_fmt dtm_iso).
+  Notation ser1 := (serialize1 D Dt Tm Dtm U dec_str uuid_str date_iso time_fmt dtm_iso).
+  Notation deser23 := (deserialize23 D Dt Tm Dtm U dec_parse uuid_parse strptime_date strptime_hm strptime_hms strptime_hmsf
+                                     strptime_frac strptime_nofrac geqb).
+  Notation deser1 := (deserialize1 D Dt Tm Dtm U dec_parse uuid_parse strptime_date strptime_hm strptime_hms strptime_hmsf
+                                   strptime_frac strptime_nofrac).
+  Notation sof := (serializer_of D Dt Tm Dtm U).
+  Notation nrm := (norm D Dt Tm Dtm U).
+  Notation sbuild := (set_build D Dt Tm Dtm U geqb).
+  Notation dbuild := (dict_build D Dt Tm Dtm U geqb).
 
   (* nested induction principle for values *)
   Section GvalInd.
     Variable P : gv -> Prop.
-    Hypothesis Hleaf : forall v, (forall l, v <> GList _ _ _ _ _ _ l) -> (forall l, v <> GSet _ _ _ _ _ _ l) ->
-                                 (forall l, v <> GTuple _ _ _ _ _ _ l) -> (forall l, v <> GDict _ _ _ _ _ _ l) -> P v.
-    Hypothesis Hlist : forall l, Forall P l -> P (GList _ _ _ _ _ _ l).
-    Hypothesis Hset : forall l, Forall P l -> P (GSet _ _ _ _ _ _ l).
-    Hypothesis Htuple : forall l, Forall P l -> P (GTuple _ _ _ _ _ _ l).
-    Hypothesis Hdict : forall l, Forall (fun kv => P (fst kv) /\ P (snd kv)) l -> P (GDict _ _ _ _ _ _ l).
+    Hypothesis Hleaf : forall v, (forall l, v <> GList _ _ _ _ _ l) -> (forall l, v <> GSet _ _ _ _ _ l) ->
+                                 (forall l, v <> GTuple _ _ _ _ _ l) -> (forall l, v <> GDict _ _ _ _ _ l) -> P v.
+    Hypothesis Hlist : forall l, Forall P l -> P (GList _ _ _ _ _ l).
+    Hypothesis Hset : forall l, Forall P l -> P (GSet _ _ _ _ _ l).
+    Hypothesis Htuple : forall l, Forall P l -> P (GTuple _ _ _ _ _ l).
+    Hypothesis Hdict : forall l, Forall (fun kv => P (fst kv) /\ P (snd kv)) l -> P (GDict _ _ _ _ _ l).
 
     Fixpoint gval_ind' (v : gv) : P v :=
       let all := fix go (l : list gv) : Forall P l :=
         match l with [] => Forall_nil P | x :: l' => Forall_cons x (gval_ind' x) (go l') end in
       match v with
-      | GList _ _ _ _ _ _ l => Hlist l (all l)
-      | GSet _ _ _ _ _ _ l => Hset l (all l)
-      | GTuple _ _ _ _ _ _ l => Htuple l (all l)
-      | GDict _ _ _ _ _ _ l =>
+      | GList _ _ _ _ _ l => Hlist l (all l)
+      | GSet _ _ _ _ _ l => Hset l (all l)
+      | GTuple _ _ _ _ _ l => Htuple l (all l)
+      | GDict _ _ _ _ _ l =>
           Hdict l ((fix go (l : list (gv * gv)) : Forall (fun kv => P (fst kv) /\ P (snd kv)) l :=
                       match l with
                       | [] => Forall_nil _
@@ -167,25 +177,26 @@ Section Laws.
       end.
   End GvalInd.
 
-  Definition str_key (v : gv) : bool := match v with GStr _ _ _ _ _ _ k => negb (is_type_key k) | _ => false end.
+  Definition str_key (v : gv) : bool := match v with GStr _ _ _ _ _ k => negb (is_type_key k) | _ => false end.
 
   (* the values the statement covers, per GraphSON version *)
   Fixpoint supported (ver : version) (v : gv) {struct v} : Prop :=
     let all := fix go (l : list gv) : Prop := match l with [] => True | x :: l' => supported ver x /\ go l' end in
     match v with
-    | GBlob _ _ _ _ _ _ _ bs => Forall is_byte bs
-    | GDuration _ _ _ _ _ _ _ _ _ => ver = V3
-    | GList _ _ _ _ _ _ l => ver = V3 /\ all l
-    | GTuple _ _ _ _ _ _ l => ver = V3 /\ all l
-    | GSet _ _ _ _ _ _ l => ver = V3 /\ all l /\ sbuild (map nrm l) = Some (GSet _ _ _ _ _ _ (map nrm l))
-    | GDict _ _ _ _ _ _ l =>
+    | GBlob _ _ _ _ _ _ bs => Forall is_byte bs
+    | GGeom _ _ _ _ _ g => geom_ok g
+    | GDuration _ _ _ _ _ _ _ _ => ver = V3
+    | GList _ _ _ _ _ l => ver = V3 /\ all l
+    | GTuple _ _ _ _ _ l => ver = V3 /\ all l
+    | GSet _ _ _ _ _ l => ver = V3 /\ all l /\ sbuild (map nrm l) = Some (GSet _ _ _ _ _ (map nrm l))
+    | GDict _ _ _ _ _ l =>
         (fix go (l : list (gv * gv)) : Prop :=
            match l with
            | [] => True
            | (k, x) :: l' => (match ver with V1 => False | V2 => str_key k = true | V3 => supported ver k end) /\
                              supported ver x /\ go l'
            end) l /\
-        dbuild (map (fun kv => (nrm (fst kv), nrm (snd kv))) l) = Some (GDict _ _ _ _ _ _ (map (fun kv => (nrm (fst kv), nrm (snd kv))) l))
+        dbuild (map (fun kv => (nrm (fst kv), nrm (snd kv))) l) = Some (GDict _ _ _ _ _ (map (fun kv => (nrm (fst kv), nrm (snd kv))) l))
     | _ => True
     end.
 
@@ -195,11 +206,11 @@ Section Laws.
   Hypothesis laws : leaf_laws.
 
   Lemma leaf_rt : forall ver v, ver <> V1 ->
-    (forall l, v <> GList _ _ _ _ _ _ l) -> (forall l, v <> GSet _ _ _ _ _ _ l) ->
-    (forall l, v <> GTuple _ _ _ _ _ _ l) -> (forall l, v <> GDict _ _ _ _ _ _ l) -> RT ver v.
+    (forall l, v <> GList _ _ _ _ _ l) -> (forall l, v <> GSet _ _ _ _ _ l) ->
+    (forall l, v <> GTuple _ _ _ _ _ l) -> (forall l, v <> GDict _ _ _ _ _ l) -> RT ver v.
   Proof.
     intros ver v Hver N1 N2 N3 N4 Hs.
-    destruct laws as (Ldec & Luuid & Ldate & Ltime & Ldtm & Lwkt).
+    destruct laws as (Ldec & Luuid & Ldate & Ltime & Ldtm).
     destruct v; try (exfalso; (now eapply N1) || (now eapply N2) || (now eapply N3) || (now eapply N4)).
     - (* str *) destruct ver; [congruence| |]; eexists; split; reflexivity.
     - (* bool *) destruct ver; [congruence| |]; eexists; split; reflexivity.
@@ -225,14 +236,19 @@ Section Laws.
       destruct ver; [congruence| |]; destruct sub; eexists; (split; [reflexivity|]);
         cbn [deserialize23 deserializer_for tio_deserialize_scalar envelope tag_of option_map];
         (destruct (Ldtm x) as [E | [E1 E2]]; [rewrite E | rewrite E1, E2]); reflexivity.
+    - (* aware datetime: written as the UTC reading of its instant *)
+      destruct ver; [congruence| |]; eexists; (split; [reflexivity|]);
+        cbn [deserialize23 deserializer_for tio_deserialize_scalar envelope tag_of option_map];
+        (destruct (Ldtm utc) as [E | [E1 E2]]; [rewrite E | rewrite E1, E2]); reflexivity.
     - (* timedelta *) destruct ver; [congruence| |]; eexists; (split; [reflexivity|]);
         cbn [deserialize23 deserializer_for tio_deserialize_scalar envelope tag_of option_map]; rewrite duration_roundtrip; reflexivity.
     - (* uuid *) destruct ver; [congruence| |]; eexists; (split; [reflexivity|]);
         cbn [deserialize23 deserializer_for tio_deserialize_scalar envelope tag_of option_map]; rewrite Luuid; reflexivity.
     - (* geometry *)
-      pose proof (Lwkt g) as Lg.
-      destruct ver; [congruence| |]; cbn [serialize23 serializer_of class_of]; destruct (geo_kind g) eqn:Ek;
-        eexists; (split; [reflexivity|]); cbn [deserialize23 deserializer_for tio_deserialize_scalar envelope tag_of option_map]; rewrite Lg; reflexivity.
+      cbn [supported] in Hs. pose proof (geom_roundtrip g Hs) as Lg.
+      destruct ver; [congruence| |]; unfold serialize23, serializer_of, class_of; destruct g as [p | l | ext ints];
+        cbn [geom_kind] in *; eexists; (split; [reflexivity|]);
+        cbn [deserialize23 deserializer_for tio_deserialize_scalar envelope tag_of option_map]; rewrite Lg; reflexivity.
     - (* cassandra.util.Duration: GraphSON3 only *)
       cbn [supported] in Hs. subst ver. eexists; split; reflexivity.
   Qed.
@@ -289,10 +305,10 @@ Section Laws.
     Forall (fun kv => str_key (fst kv) = true /\ supported V2 (snd kv)) l ->
     exists js,
       gs_mapM (fun kv : gv * gv => match kv with
-                                   | (GStr _ _ _ _ _ _ k, x) => option_map (pair k) (ser23 V2 x)
+                                   | (GStr _ _ _ _ _ k, x) => option_map (pair k) (ser23 V2 x)
                                    | _ => None end) l = Some js /\
       existsb (fun kv : list Z * json => is_type_key (fst kv)) js = false /\
-      gs_mapM (fun kv : list Z * json => match kv with (k, x) => option_map (pair (GStr _ _ _ _ _ _ k)) (deser23 V2 x) end) js
+      gs_mapM (fun kv : list Z * json => match kv with (k, x) => option_map (pair (GStr _ _ _ _ _ k)) (deser23 V2 x) end) js
         = Some (map (fun kv => (nrm (fst kv), nrm (snd kv))) l).
   Proof.
     intros l HF. induction HF as [|[k x] l [_ Hx] HF IH]; intros HS.
@@ -343,15 +359,16 @@ Section Laws.
   (* GraphSON1: scalars, the caller supplies the type (the serializer chosen for the value) *)
   Definition supported1 (v : gv) : Prop :=
     match v with
-    | GBlob _ _ _ _ _ _ _ bs => Forall is_byte bs
-    | GDuration _ _ _ _ _ _ _ _ _ | GList _ _ _ _ _ _ _ | GSet _ _ _ _ _ _ _ | GTuple _ _ _ _ _ _ _ | GDict _ _ _ _ _ _ _ => False
+    | GBlob _ _ _ _ _ _ bs => Forall is_byte bs
+    | GGeom _ _ _ _ _ g => geom_ok g
+    | GDuration _ _ _ _ _ _ _ _ | GList _ _ _ _ _ _ | GSet _ _ _ _ _ _ | GTuple _ _ _ _ _ _ | GDict _ _ _ _ _ _ => False
     | _ => True
     end.
 
   Theorem roundtrip1 : forall v, supported1 v ->
     exists j, ser1 v = Some j /\ deser1 (sof V1 v) j = Some (nrm v).
   Proof.
-    intros v Hs. destruct laws as (Ldec & Luuid & Ldate & Ltime & Ldtm & Lwkt).
+    intros v Hs. destruct laws as (Ldec & Luuid & Ldate & Ltime & Ldtm).
     destruct v; cbn [supported1] in Hs; try contradiction.
     - eexists; split; reflexivity.
     - eexists; split; reflexivity.
@@ -363,19 +380,21 @@ Section Laws.
     - destruct (Ltime t) as (T1 & T2 & T3). eexists; (split; [reflexivity|]); cbn; rewrite T1, T2, T3; reflexivity.
     - destruct sub; eexists; (split; [reflexivity|]); cbn;
         (destruct (Ldtm x) as [E | [E1 E2]]; [rewrite E | rewrite E1, E2]); reflexivity.
+    - eexists; (split; [reflexivity|]); cbn;
+        (destruct (Ldtm utc) as [E | [E1 E2]]; [rewrite E | rewrite E1, E2]); reflexivity.
     - eexists; (split; [reflexivity|]). cbn [serializer_of class_of]. cbn -[duration_deserialize duration_serialize].
       rewrite duration_roundtrip. reflexivity.
     - eexists; (split; [reflexivity|]); cbn; rewrite Luuid; reflexivity.
-    - pose proof (Lwkt g) as Lg. unfold serialize1, serializer_of, class_of. destruct (geo_kind g) eqn:Ek;
-        eexists; (split; [reflexivity|]); cbn; rewrite Lg; reflexivity.
+    - pose proof (geom_roundtrip g Hs) as Lg. unfold serialize1, serializer_of, class_of. destruct g as [p | l | ext ints];
+        cbn [geom_kind] in *; eexists; (split; [reflexivity|]); cbn -[from_wkt geom_wkt]; rewrite Lg; reflexivity.
   Qed.
 
   (* the assumed law that makes the pre-repair dispatch visible: a datetime's isoformat is not a '%Y-%m-%d' date *)
   Lemma legacy_localdate_of_datetime : (forall x, strptime_date (dtm_iso x) = None) -> forall x sub,
-    match tio_serialize D Dt Tm Dtm U Geo dec_str uuid_str date_iso time_fmt dtm_iso wkt_str TLocalDate (GDatetime _ _ _ _ _ _ x sub) with
-    | Some j => tio_deserialize_scalar D Dt Tm Dtm U Geo dec_parse uuid_parse strptime_date strptime_hm strptime_hms strptime_hmsf
-                                       strptime_frac strptime_nofrac from_wkt TLocalDate j
+    match tio_serialize D Dt Tm Dtm U dec_str uuid_str date_iso time_fmt dtm_iso TLocalDate (GDatetime _ _ _ _ _ x sub) with
+    | Some j => tio_deserialize_scalar D Dt Tm Dtm U dec_parse uuid_parse strptime_date strptime_hm strptime_hms strptime_hmsf
+                                       strptime_frac strptime_nofrac TLocalDate j
     | None => None
-    end = Some (GStr _ _ _ _ _ _ (dtm_iso x)).
+    end = Some (GStr _ _ _ _ _ (dtm_iso x)).
   Proof. intros Hn x sub. cbn. rewrite Hn. reflexivity. Qed.
 End Laws.
